@@ -7,6 +7,7 @@ import (
 	"sync"
 	"time"
 
+	"github.com/datastax/go-cassandra-native-protocol/frame"
 	"github.com/datastax/go-cassandra-native-protocol/message"
 	"github.com/datastax/go-cassandra-native-protocol/primitive"
 
@@ -250,7 +251,7 @@ func reprepareRace(c *Ctx, idx int, hosts, conns, nReq int, yield time.Duration)
 func runC02(c *Ctx) {
 	r := c.R
 	r.Assume("tokens are unique per request; a reply identifies the request it answers by the echoed token (rows, error text), the prepared id (function of the statement text) or its kind")
-	r.Require("replies_identity_checked", "reprepares_observed")
+	r.Require("replies_identity_checked", "reprepares_observed", "late_heartbeat_cases")
 	i := 0
 	next := func() int { i++; return i }
 	type rp struct{ hosts, conns, clients, w, rounds, errEvery int }
@@ -290,6 +291,12 @@ func runC02(c *Ctx) {
 			storm(c, k, sp, []string{"C02"})
 		}
 	}
+	for j := 0; j < c.Pick(2, 12); j++ {
+		k := next()
+		if c.Mine(k) {
+			lateHeartbeatReply(c, j)
+		}
+	}
 	yields := []time.Duration{0, 200 * time.Microsecond, time.Millisecond}
 	for j := 0; j < c.Pick(6, 60); j++ {
 		k := next()
@@ -297,4 +304,91 @@ func runC02(c *Ctx) {
 			reprepareRace(c, j, 2+j%2, 1+j%2, 50, yields[j%3])
 		}
 	}
+}
+
+// lateHeartbeatReply: the backend answers one of the proxy's own heartbeats (OPTIONS on a pooled connection) only after
+// the proxy has given up waiting for it; meanwhile clients use every stream id of that connection. The late SUPPORTED
+// frame must not be delivered to a client request.
+func lateHeartbeatReply(c *Ctx, idx int) {
+	r := c.R
+	label := "late-heartbeat-reply"
+	scenario := map[string]interface{}{"kind": "late-heartbeat-reply", "idx": idx}
+	c.Step("late-heartbeat-reply idx=%d", idx)
+	bed, err := px.NewBed(px.BedConfig{Hosts: 1, NumConns: 1, Keyspaces: []string{"ks1"}, KeepBodies: true, HeartBeat: 80 * time.Millisecond, ConnectTimeout: 120 * time.Millisecond, Idle: 20 * time.Second})
+	if err != nil {
+		r.Inconc("late-heartbeat: cannot start bed: " + err.Error())
+		return
+	}
+	defer bed.Close()
+	type heldHB struct {
+		conn   *fakecass.Conn
+		ver    primitive.ProtocolVersion
+		stream int16
+	}
+	var hmu sync.Mutex
+	var held *heldHB
+	bed.Cluster.Intercept = func(x *fakecass.Conn, hdr *frame.Header, raw []byte) bool {
+		if hdr.OpCode != primitive.OpCodeOptions || x.IsRegistered() {
+			return false
+		}
+		hmu.Lock()
+		defer hmu.Unlock()
+		if held == nil {
+			held = &heldHB{x, hdr.Version, hdr.StreamId}
+			return true // swallowed for now
+		}
+		return false
+	}
+	bed.Cluster.SetScript(func(a *fakecass.Arrival) fakecass.Outcome {
+		o := fakecass.Rows()
+		o.Hold = true
+		return o
+	})
+	var clients []*rawcql.Client
+	for i := 0; i < 2; i++ {
+		cl, err := bed.ReadyClient(primitive.ProtocolVersion4, "")
+		if err != nil {
+			r.Inconc("late-heartbeat: handshake: " + err.Error())
+			return
+		}
+		defer cl.Close()
+		clients = append(clients, cl)
+	}
+	// wait for a heartbeat to be swallowed and for the proxy to give up on it (its timeout is the connect timeout)
+	if !waitFor(func() bool { hmu.Lock(); defer hmu.Unlock(); return held != nil }, 5*time.Second) {
+		r.Inconc("late-heartbeat: no heartbeat observed on the pooled connection")
+		return
+	}
+	time.Sleep(300 * time.Millisecond)
+	mark := bed.Log.Len()
+	total := 2300
+	for i := 0; i < total; i++ {
+		cl := clients[i%2]
+		if err := cl.SendF(BuildRequest(primitive.ProtocolVersion4, int16(i/2), KQuery, true, NewTok(), primitive.ConsistencyLevelOne)); err != nil {
+			r.Inconc("late-heartbeat: send: " + err.Error())
+			return
+		}
+	}
+	waitFor(func() bool { return bed.Cluster.HeldCount()+int(clients[0].Received()+clients[1].Received()) >= total }, 20*time.Second)
+	inFlight := bed.Cluster.HeldCount()
+	// now the late answer to the heartbeat arrives
+	hmu.Lock()
+	h := held
+	hmu.Unlock()
+	late := append(rawcql.EncodeHeader(h.ver, 0, h.stream, primitive.OpCodeSupported, 2), 0, 0)
+	late[0] |= 0x80
+	_ = h.conn.WriteRaw(late, "late SUPPORTED for the heartbeat")
+	time.Sleep(20 * time.Millisecond)
+	bed.Cluster.ReleaseHeld(nil)
+	for _, cl := range clients {
+		ProgressSteps(cl, 5, 31000)
+	}
+	waitFor(func() bool { return int(clients[0].Received()+clients[1].Received()) >= total }, 5*time.Second)
+	evs := bed.Log.Snapshot()[mark:]
+	n := identityCheck(r, "C02", evs, map[int]string{}, label, scenario)
+	r.Obs("replies_identity_checked", n)
+	r.Obs("late_heartbeat_cases", 1)
+	r.ObsMax("max:in_flight_at_backend", inFlight)
+	r.Eval(total)
+	r.NonTrivial(fmt.Sprintf("late-heartbeat/%d/inflight=%d", idx, inFlight))
 }
